@@ -1,5 +1,5 @@
 (* C18 — the builder accepts all well-formed registrations and rejects the two ill-formed ones. *)
-From Shred Require Import Base SrcParams Plan PlanObs PlanInv PlanLoc PlanBuild PlanProps.
+From Shred Require Import Base SrcParams Plan PlanObs PlanInv PlanLoc PlanBuild PlanProps PlanRec PlanRecProps.
 
 (* [spec_first_error] decides by name bookkeeping only (no planner) which call, if any, is the
    first to name an unregistered dependency or to reuse a non-empty name.  For registration
@@ -28,3 +28,35 @@ Proof. vm_compute. reflexivity. Qed.
 Example C18_example_unknown :
   plan [RSys 1 [97] [] [] [] 3%Z; RBatch 2 [98] [[97]] [] [] 5%Z 1 [RSys 3 [] [[97]] [] [] 1%Z]] = Err (ENoSuch [97]).
 Proof. vm_compute. reflexivity. Qed.
+
+(* The rejected call panics AT THE CALL and leaves no trace: a caller that catches the panic and goes on with the same
+   builder ([plan_rec]: the builder of the real code only loses the SystemId the rejected call took) ends with exactly
+   the plan of the ACCEPTED registrations ([accepted]: decided by name bookkeeping alone, at every nesting level) —
+   same stages, groups and members by tag, same thread-local list, same max_threads, same sendability. *)
+Theorem C18_rejected_registration_leaves_no_trace :
+  forall rs, regs_times_ok rs ->
+  exists b, plan (accepted rs) = Ok b /\
+            layout_tags (plan_rec rs) = layout_tags b /\ shape (plan_rec rs) = shape b /\
+            b_tl (plan_rec rs) = b_tl b /\ max_threads (plan_rec rs) = max_threads b /\
+            sendable (plan_rec rs) = sendable b.
+Proof. exact plan_rec_is_plan_of_accepted. Qed.
+Print Assumptions C18_rejected_registration_leaves_no_trace.
+
+(* ... so every plan oracle the driver evaluates on a recovered builder holds of the model *)
+Theorem C18_recovered_builder_meets_every_plan_oracle :
+  forall rs, regs_times_ok rs -> NoDup (sys_tags rs) ->
+  let l := layout_tags (plan_rec rs) in
+  let spec := accepted rs in
+  o_exec_perm spec l = true /\ o_isolated spec l = true /\ o_deps_ordered spec l = true /\ o_barriers spec l = true /\
+  o_max_threads l (max_threads (plan_rec rs)) = true /\ o_sendable spec (sendable (plan_rec rs)) = true /\
+  b_tl (plan_rec rs) = tl_tags rs.
+Proof. exact rec_oracles_on_model. Qed.
+Print Assumptions C18_recovered_builder_meets_every_plan_oracle.
+
+Example C18_example_recover :
+  let rs := [RSys 1 [97] [] [] [5] 3%Z; RSys 2 [97] [] [] [6] 3%Z; RSys 3 [] [[120]] [] [7] 3%Z;
+             RSys 4 [98] [[97]] [5] [] 3%Z] in
+  accepted rs = [RSys 1 [97] [] [] [5] 3%Z; RSys 4 [98] [[97]] [5] [] 3%Z] /\
+  layout_tags (plan_rec rs) = [[[1]]; [[4]]] /\ layout_ids (plan_rec rs) = [[[0]]; [[3]]] /\
+  rec_errs rs = [(1%nat, EDup [97]); (2%nat, ENoSuch [120])].
+Proof. exact rec_example. Qed.
